@@ -29,6 +29,11 @@ def rows_for(tier, wd):
         return r2, None
     rows += vlib.tlc_prints(r2["out"])
     r["seq"] = r2
+    # the kd-tree point cloud path of bitstreams older than 2.3 (module LegacyKd): three point counts around the number of encoded points
+    r3 = vlib.tlc("MC_LegacyKd", cfg="MC_LegacyKd.cfg", specdir=MC, workers=4, timeout=600)
+    vlib.tlc_ok(r3, "MC_LegacyKd")
+    rows += vlib.tlc_prints(r3["out"])
+    r["lkd"] = r3
     f = os.path.join(wd, "eb_rows.ndjson")
     vlib.write_ndjson(f, rows)
     return r, f
@@ -45,6 +50,7 @@ def run(v, tier, seed, wd, prop="C02"):
         return
     v.add_tlc("MC_EbDecoder_" + tier, r)
     v.add_tlc("MC_SeqDecoder_" + tier, r["seq"])
+    v.add_tlc("MC_LegacyKd", r["lkd"])
     if tier != "quick":
         # deeper design checks of the guards without replay: longer strings, pairs of split events
         for cfg in ("guards6", "guards5p"):
